@@ -1604,9 +1604,11 @@ async fn emit_event(
     buffer: &Arc<Mutex<Vec<Event>>>,
     event_log: &EventLog,
 ) {
-    let _ = sender.send(event.clone());
+    // Record before publishing: a subscriber subscribes first and snapshots the buffer second, so a
+    // frame already on the live channel must never be missing from a later snapshot.
     let mut guard = buffer.lock().await;
     guard.push(event.clone());
+    let _ = sender.send(event.clone());
     let _ = event_log.append(&event);
 }
 
